@@ -164,6 +164,7 @@ type hijackWatch struct {
 	sync.Mutex
 	source  watch.Interface
 	result  chan watch.Event
+	done    chan struct{}
 	stopped bool
 }
 
@@ -171,6 +172,7 @@ func newHijackWatch(source watch.Interface) watch.Interface {
 	w := &hijackWatch{
 		source: source,
 		result: make(chan watch.Event),
+		done:   make(chan struct{}),
 	}
 	go w.receive()
 	return w
@@ -181,6 +183,7 @@ func (w *hijackWatch) Stop() {
 	defer w.Unlock()
 	if !w.stopped {
 		w.stopped = true
+		close(w.done)
 		w.source.Stop()
 	}
 }
@@ -198,16 +201,24 @@ func (w *hijackWatch) receive() {
 			asts, ok := event.Object.(*asv1.StatefulSet)
 			if !ok {
 				// events which do not carry a StatefulSet (e.g. error statuses) are relayed as is
-				w.result <- event
+				select {
+				case w.result <- event:
+				case <-w.done:
+					return
+				}
 				continue
 			}
 			sts, err := ToBuiltinStatefulSet(asts)
 			if err != nil {
 				panic(err)
 			}
-			w.result <- watch.Event{
+			select {
+			case w.result <- watch.Event{
 				Type:   event.Type,
 				Object: sts,
+			}:
+			case <-w.done:
+				return
 			}
 		}
 	}
